@@ -359,10 +359,28 @@ def pc_update(ctx: Ctx, py: PyProgram) -> None:
     sets = [c for c in ast.walk(fn) if isinstance(c, ast.Call) and attr_chain(c.func) == "self.regs.set" and c.args and attr_chain(c.args[0]) == "RegisterName.PC"]
     forms = [unparse(c.args[1]) for c in sets]
     n = len(sets)
-    if forms.count("address + current_instr_length") != 2 or "pc_value" not in forms:
+    from ..rules import py_defs, py_leaves
+    d = py_defs(fn)
+
+    def kind(v: ast.expr) -> str:
+        # address + <decoded length> (length read from the analysed instruction info / decoded instruction), through locals and casts
+        r = v
+        hops = 0
+        while isinstance(r, ast.Name) and r.id in d and len(d[r.id]) == 1 and isinstance(d[r.id][0], ast.AST) and hops < 4:
+            r = d[r.id][0]
+            hops += 1
+        lv = py_leaves(v, d)
+        if isinstance(r, ast.BinOp) and isinstance(r.op, ast.Add) and "<address>" in lv and any(x == ".length" or x.endswith(".length") for x in lv):
+            return "next"
+        if "<address>" in lv and lv <= {"<address>", "<param>", "PC_MASK"}:
+            return "current"
+        return "other"
+    kinds = [kind(c.args[1]) for c in sets]
+    if kinds.count("next") != 2 or "current" not in kinds or "other" in kinds:
         ctx.violation("C05.5/pc-update", key_of(isa.EMU_PY, "Emulator._execute_instruction_impl", "PC writes"), f"PC writes are {forms}; expected address+length on both the WAIT fast path and the normal path", f"{isa.EMU_PY}:{fn.lineno}")
     # the normal-path PC update precedes IL evaluation (the while loop over il.ils)
-    loop = [w for w in ast.walk(fn) if isinstance(w, ast.While) and "il.ils" in unparse(w.test)]
+    loop = [w for w in ast.walk(fn) if (isinstance(w, ast.While) and any(isinstance(a, ast.Attribute) and a.attr == "ils" for a in ast.walk(w.test)))
+            or (isinstance(w, ast.For) and any(isinstance(a, ast.Attribute) and a.attr == "ils" for a in ast.walk(w.iter)))]
     last = max((c.lineno for c in sets), default=0)
     if not loop or last > loop[0].lineno:
         ctx.violation("C05.5/pc-update", key_of(isa.EMU_PY, "Emulator._execute_instruction_impl", "order"), "PC is not advanced before the IL is evaluated", f"{isa.EMU_PY}:{fn.lineno}")
